@@ -463,6 +463,7 @@ type Contract struct {
 	Notes    []string
 	Decreases *Clause // termination measure for recursive functions
 	Fresh    bool // result is freshly allocated
+	FreshResults map[int]bool // `fresh N`: tuple component N is freshly allocated
 	Opaque   bool // do not verify body even if available (external)
 }
 
@@ -649,7 +650,18 @@ func ParseContractFile(path string) (*ContractFile, error) {
 		case "opaque":
 			cur.Opaque = true
 		case "fresh":
-			cur.Fresh = true
+			if t := strings.TrimSpace(rc.text); t != "" {
+				if cur.FreshResults == nil {
+					cur.FreshResults = map[int]bool{}
+				}
+				for _, f := range strings.Fields(t) {
+					if n, err := strconv.Atoi(f); err == nil {
+						cur.FreshResults[n] = true
+					}
+				}
+			} else {
+				cur.Fresh = true
+			}
 		case "ieee":
 			cur.IEEE = true
 		case "nopanic":
